@@ -2289,3 +2289,47 @@ Theorem lookalike_proof (d : delims) (w : wsconfig) (t : str) :
   keep w = true -> wf_case d true [Text t] = true ->
   exists its, tokenize {| dl := d; wsc := w; qk := fixed |} t = (its, FOk) /\ view its = [EText t].
 Proof. intros Hk H. apply lookalike_is_text_proof; auto. apply finder_ok_all. eapply wf_case_delims; eauto. Qed.
+
+(* ========================================================================================== *)
+(* the search for an END delimiter (memstr: comment end, block start inside raw blocks) returns the FIRST occurrence *)
+Lemma find_sub_some n : forall h i j, find_sub n h i = Some j ->
+  exists pre post, h = pre ++ n ++ post /\ j = i + lenZ pre /\
+                   (forall pre' post', h = pre' ++ n ++ post' -> lenZ pre <= lenZ pre').
+Proof.
+  induction h as [|x r IH]; intros i j H; rewrite find_sub_unfold in H.
+  - destruct (prefix_of n []) eqn:E; [|discriminate]. inversion H; subst.
+    apply prefix_of_true in E as [post E]. exists [], post. cbn [app]. split; [exact E|]. split; [rewrite lenZ_nil; lia|].
+    intros pre' post' _. rewrite lenZ_nil. apply lenZ_nonneg.
+  - destruct (prefix_of n (x :: r)) eqn:E.
+    + inversion H; subst. apply prefix_of_true in E as [post E]. exists [], post. cbn [app]. split; [exact E|]. split; [rewrite lenZ_nil; lia|].
+      intros pre' post' _. rewrite lenZ_nil. apply lenZ_nonneg.
+    + destruct (IH _ _ H) as (pre & post & Er & Ej & Hmin).
+      exists (x :: pre), post. cbn [app]. split; [rewrite Er; reflexivity|]. split; [rewrite lenZ_cons; lia|].
+      intros pre' post' E'. destruct pre' as [|y pre''].
+      * cbn [app] in E'. rewrite E', prefix_of_app in E. discriminate.
+      * cbn [app] in E'. inversion E'; subst. rewrite !lenZ_cons. specialize (Hmin pre'' post' H2). lia.
+Qed.
+
+Lemma find_sub_none n : forall h i, find_sub n h i = None -> forall pre post, h <> pre ++ n ++ post.
+Proof.
+  induction h as [|x r IH]; intros i H pre post E; rewrite find_sub_unfold in H.
+  - destruct (prefix_of n []) eqn:Ep; [discriminate|].
+    destruct pre; [|discriminate]. cbn [app] in E. rewrite E, prefix_of_app in Ep. discriminate.
+  - destruct (prefix_of n (x :: r)) eqn:Ep; [discriminate|].
+    destruct pre as [|y pre'].
+    + cbn [app] in E. rewrite E, prefix_of_app in Ep. discriminate.
+    + cbn [app] in E. inversion E; subst. eapply IH; eauto.
+Qed.
+
+Theorem end_marker_search_proof (n h : list Z) :
+  match find_sub n h 0 with
+  | Some j => exists pre post, h = pre ++ n ++ post /\ lenZ pre = j /\
+                               (forall pre' post', h = pre' ++ n ++ post' -> j <= lenZ pre')
+  | None => forall pre post, h <> pre ++ n ++ post
+  end.
+Proof.
+  destruct (find_sub n h 0) as [j|] eqn:E.
+  - destruct (find_sub_some n h 0 j E) as (pre & post & Eh & Ej & Hmin).
+    exists pre, post. split; [exact Eh|]. split; [lia|]. intros pre' post' E'. specialize (Hmin pre' post' E'). lia.
+  - apply (find_sub_none n h 0 E).
+Qed.
